@@ -33,8 +33,15 @@ def generate(driver):
         pre, post = http[:m.start(1)], http[m.end(1):]
     else:
         pre, post = http, b""
+    dump = subprocess.run([driver], input="DUMP\n", stdout=subprocess.PIPE, stderr=subprocess.DEVNULL,
+                          env=dict(os.environ, MASSCANNED_VERIF="1"), text=True, timeout=120).stdout
+    blobs = {}
+    for line in dump.splitlines():
+        w = line.split()
+        if len(w) >= 2 and w[0] == "const":
+            blobs[w[1]] = bytes.fromhex(w[2]) if len(w) > 2 else b""
     consts = {"http_pre": pre, "http_post": post, "ssh_banner": ssh, "ghost": ghost,
-              "smb1_blob": b"", "smb2_blob": b""}
+              "smb_neg": blobs.get("smb_neg", b""), "smb_chal": blobs.get("smb_chal", b"")}
     src = "(* GENERATED from the implementation's replies to canonical requests on every run; do not edit. *)\n"
     src += "From MS Require Import Bytes.\nOpen Scope N_scope.\n\n"
     for k, v in consts.items():
